@@ -1142,6 +1142,8 @@ func (t *trzszTransfer) recvFileName(path string, progress progressCallback) (fi
 		}
 		fileName = srcFile.getFileName()
 		file, localName, err = t.createDirOrFile(path, srcFile, true)
+	} else if !isPlainFileName(fileName) {
+		err = simpleTrzszError("Invalid file name: %s", fileName)
 	} else {
 		file, localName, err = t.createFile(path, fileName, true, nil)
 	}
